@@ -1,6 +1,7 @@
 import MoneroModel.Drv.Util
 import MoneroModel.Model.Extra
 import MoneroModel.Spec.Extra
+import MoneroModel.Spec.ExtraParse
 import MoneroModel.Ref.Ed25519
 open Monero Monero.Extra
 /-! Driver step for C16 (transaction extra).
@@ -12,7 +13,10 @@ keys, `G<hex>` MinerGate blob.
 * `c16_parse <hex>` → `<ok|err> <n> <dump> pre=<dump of the fields before the first failure> | txkey=<hex|none> addkeys=<k>:<hex>|none`
 * `c16_ser <dump>` → hex of `RawExtraField::from(ExtraField(fields))` (`err` if the dump does not denote a value:
   invalid key, padding > 255, depth ≥ 2^64; `PANIC` if the conversion's `unwrap` would fail)
-* `c16_subfield <hex>` → `ok <dump>` | `err` (strict `deserialize::<SubField>`) -/
+* `c16_subfield <hex>` → `ok <dump>` | `err` (strict `deserialize::<SubField>`)
+* `c16_rawparse <hex>` → `<n> <dump>` of `RawExtraField::try_parse` (model `rawTryParse`)
+* `c16_okpre <hex>` → `<ok|err> pre=<dump>`: the flag and the fields before the first failure — exactly what the property
+  constrains for arbitrary bytes; model = `tryParse`, spec = the independent grammar reader `Spec.Extra.parse` -/
 namespace Drv.C16
 
 /-- `PublicKey::from_slice` acceptance by the reference curve arithmetic: decodes, and re-encodes to the same bytes -/
@@ -69,6 +73,16 @@ def toSpec : SubField → Spec.Extra.Field
   | .addKeys ks => .additional ks
   | .minerGate d => .minergate d
 
+def dumpSpecField : Spec.Extra.Field → String
+  | .padding n => s!"P{n}"
+  | .pubkey k => "K" ++ hx k
+  | .nonce n => "N" ++ hx n
+  | .mergeMining d h => s!"M{d}:" ++ hx h
+  | .additional ks => s!"A{ks.length}:" ++ hx ks.flatten
+  | .minergate d => "G" ++ hx d
+def dumpSpec (fs : List Spec.Extra.Field) : String :=
+  if fs.isEmpty then "-" else ",".intercalate (fs.map dumpSpecField)
+
 def showParsed (p : Parsed) : String :=
   let flag := if p.err then "err" else "ok"
   let tk := match txPubkey p.fields with | some k => hx k | none => "none"
@@ -83,6 +97,14 @@ def stepC16 : Step
   | ["c16_parse", h] => some (showParsed (tryParse edValid (Hex.decode h)), "-")
   | ["c16_subfield", h] =>
     some ((match subFieldStrict edValid (Hex.decode h) with | some sf => "ok " ++ dumpField sf | none => "err"), "-")
+  | ["c16_okpre", h] =>
+    let b := Hex.decode h
+    let p := tryParse edValid b
+    let (ok, fs) := Spec.Extra.parse edValid b
+    some (s!"{if p.err then "err" else "ok"} pre={dump p.pre}", s!"{if ok then "ok" else "err"} pre={dumpSpec fs}")
+  | ["c16_rawparse", h] =>
+    let fs := rawTryParse edValid (Hex.decode h)
+    some (s!"{fs.length} {dump fs}", "-")
   | ["c16_subfield_rt", d, suf] =>
     -- C02 for the sub-field codec: bytes, reported length, partial parse of bytes ++ suffix, strict parse of bytes
     match parseField d with
